@@ -210,6 +210,60 @@ PerEnc(s, t) ==
      [] t.k = "open" -> EncOpen(s, t)
 PerEncode(t) == PerComplete(PerEnc(PerEmpty, t))
 
+(* Field positions (used by the fault model of C14, PerFault.tla): PerMarks(s, t, base) encodes t from state s like PerEnc and     *)
+(* also returns the set of absolute bit positions (base = position of the current buffer in the outermost one) at which the     *)
+(* encoding of some node of t begins, i.e. where its extension bit / presence bitmap / choice index / length determinant / first  *)
+(* content bit is, plus the first octet of every length determinant of an open type.  Contents of 16384 units or more are not      *)
+(* descended into.                                                                                                             *)
+PerPos(s) == IF s.o = 0 THEN 8 * Len(s.b) ELSE 8 * (Len(s.b) - 1) + s.o
+RECURSIVE PerMarks(_, _, _)
+RECURSIVE MarksFields(_, _, _, _)
+MarksFields(s, fs, base, acc) ==
+   IF Len(fs) = 0 THEN [s |-> s, m |-> acc]
+   ELSE IF Head(fs).present THEN LET r == PerMarks(s, Head(fs).v, base) IN MarksFields(r.s, Tail(fs), base, acc \cup r.m)
+   ELSE MarksFields(s, Tail(fs), base, acc)
+RECURSIVE MarksElems(_, _, _, _, _)
+MarksElems(s, els, i, base, acc) ==
+   IF i > Len(els) THEN [s |-> s, m |-> acc]
+   ELSE LET r == PerMarks(s, els[i], base) IN MarksElems(r.s, els, i + 1, base, acc \cup r.m)
+PerMarks(s, t, base) ==
+   LET here == {base + PerPos(s)} IN
+   CASE t.k = "seq" -> LET s0 == IF t.ext THEN PutBit(s, 0) ELSE s IN MarksFields(EncPreamble(s0, t.fields), t.fields, base, here)
+     [] t.k = "seqof" ->
+          LET n == Len(t.v)
+              inRoot == InSize(n, t)
+              s0 == IF t.ext THEN PutBit(s, IF inRoot THEN 0 ELSE 1) ELSE s
+          IN IF n >= 16384 THEN [s |-> PerEnc(s, t), m |-> here]
+             ELSE IF (t.ext /\ ~inRoot) \/ ~(FixedSize(t) \/ SizeIsCW(t))
+                  THEN LET s1 == PutULen(s0, n) IN
+                       IF n = 0 THEN [s |-> s1, m |-> here \cup {base + PerPos(PerAlign(s0))}]
+                       ELSE MarksElems(PerAlign(s1), t.v, 1, base, here \cup {base + PerPos(PerAlign(s0))})
+             ELSE IF FixedSize(t) THEN MarksElems(s0, t.v, 1, base, here)
+             ELSE MarksElems(PutSizeCW(s0, n, t), t.v, 1, base, here)
+     [] t.k = "choice" -> LET s0 == IF t.ext THEN PutBit(s, 0) ELSE s
+                              r == PerMarks(PutCW(s0, t.idx, t.ub.n + 1), t.v, base)
+                          IN [s |-> r.s, m |-> here \cup r.m]
+     [] t.k = "open" -> LET inner == PerComplete(PerEnc(PerEmpty, t.v))
+                            lenPos == base + PerPos(PerAlign(s))
+                        IN IF Len(inner) >= 16384 THEN [s |-> EncOpen(s, t), m |-> here]
+                           ELSE LET sL == PerAlign(PutULen(s, Len(inner)))
+                                    r == PerMarks(PerEmpty, t.v, base + PerPos(sL))
+                                IN [s |-> EncOpen(s, t), m |-> here \cup {lenPos} \cup r.m]
+     [] OTHER -> [s |-> PerEnc(s, t), m |-> here]
+PerFieldStarts(t) == PerMarks(PerEmpty, t, 0).m
+
+(* A BIT STRING value is its first nbits bits: the unused low-order bits of the last octet (and octets beyond it) of the Go   *)
+(* representation carry no information.  PerNorm clears them, so that values can be compared as ASN.1 values.                *)
+RECURSIVE PerNorm(_)
+NormBits(v, n) == LET full == n \div 8 rem == n % 8 IN
+                  IF rem = 0 THEN SubSeq(v, 1, full) ELSE SubSeq(v, 1, full) \o <<(v[full + 1] \div 2^(8 - rem)) * 2^(8 - rem)>>
+PerNorm(t) ==
+   CASE t.k = "bitstr" -> IF Len(t.v) * 8 >= t.nbits THEN [t EXCEPT !.v = NormBits(t.v, t.nbits)] ELSE t
+     [] t.k = "seq" -> [t EXCEPT !.fields = Tup([i \in 1..Len(t.fields) |-> IF t.fields[i].present THEN [t.fields[i] EXCEPT !.v = PerNorm(@)] ELSE t.fields[i]])]
+     [] t.k = "seqof" -> [t EXCEPT !.v = Tup([i \in 1..Len(t.v) |-> PerNorm(t.v[i])])]
+     [] t.k \in {"choice", "open"} -> [t EXCEPT !.v = PerNorm(@)]
+     [] OTHER -> t
+
 (***************************************************************************)
 (* Decoder.  Results: [ok |-> TRUE, v |-> value tree, p |-> next bit] or   *)
 (* [ok |-> FALSE, why |-> reason, p |-> position].                         *)
